@@ -154,7 +154,7 @@ func (c *SumCopyCommand) sumCopyItem(item string, tow io.Writer) error {
 		return nil
 	}
 
-	if err := updateFileDataWithPointsList(destDB, srcPlDif, now); err != nil {
+	if err := updateFileDataWithDiff(destDB, srcTsList, srcPlDif, true, now); err != nil {
 		return err
 	}
 
